@@ -10,7 +10,7 @@ from vf.xmodel import Schema, Rop, Bound, Outcome, build_api, build_loader
 SHARDS = {'quick': 16, 'thorough': 64}
 TIMEOUT = {'quick': 1200, 'thorough': 7200}
 MUST_HIT = ['QueryRef.select', 'QueryRef.navigate', 'QueryRef.subtype', 'QueryRef.two-hop',
-            'QueryRef.order_by-with-ties', 'QueryRef.set-valued-start']
+            'QueryRef.order_by-with-ties', 'QueryRef.set-valued-start', 'QueryRef.filter-covers-identifier']
 MUST_REACH = ['xtuml/meta.py:apply_query_operators', 'xtuml/meta.py:WhereEqual.__call__',
               'xtuml/meta.py:OrderBy.__call__', 'xtuml/meta.py:MetaClass.select_one',
               'xtuml/meta.py:MetaClass.select_many', 'xtuml/meta.py:MetaClass.navigate',
@@ -57,7 +57,12 @@ def schema():
          Rop(4, 'Sub1', ['Id'], '1C', '', 'A', ['Id'], '1', ''),
          Rop(4, 'Sub2', ['Id'], '1C', '', 'A', ['Id'], '1', ''),
          Rop(5, 'PL', ['one_Id'], 'MC', 'one', 'P', ['Id'], '1', 'other'),
-         Rop(5, 'PL', ['other_Id'], 'MC', 'other', 'P', ['Id'], '1', 'one')])
+         Rop(5, 'PL', ['other_Id'], 'MC', 'other', 'P', ['Id'], '1', 'one')],
+        # declared identifiers; the library records but does not enforce them, and the random populations
+        # repeat the values of I2 / I3 freely: a filter that covers an identifier still returns every match
+        [('A', 'I1', ['Id']), ('A', 'I2', ['Name', 'N']), ('B', 'I1', ['Id']), ('B', 'I2', ['N', 'S']),
+         ('P', 'I1', ['Id']), ('P', 'I2', ['N']), ('L', 'I1', ['A_Id', 'B_Id']), ('L', 'I2', ['W']),
+         ('Sub1', 'I1', ['Id']), ('Sub1', 'I2', ['N']), ('Sub2', 'I1', ['Id'])])
 
 
 DOMAIN = {
@@ -200,6 +205,9 @@ def lib_ops(ops):
     return out
 
 
+STATS = {}
+
+
 def gen_ops(rng, sch, sh, kind, maxn=3):
     attrs = sch.attrs(kind)
     ref = set(a.upper() for a in sch.referential(kind))
@@ -209,6 +217,14 @@ def gen_ops(rng, sch, sh, kind, maxn=3):
         if k < 0.45:
             n = rng.choice((1, 1, 2, 3))
             chosen = rng.sample(attrs, min(n, len(attrs)))
+            idents = [u[2] for u in sch.uniques if u[0] == kind]
+            if idents and rng.random() < 0.3:
+                # exactly (or a superset of) the attributes of one declared identifier
+                names = list(rng.choice(idents))
+                chosen = [(a, ty) for a, ty in attrs if a in names]
+                if rng.random() < 0.3:
+                    chosen += [x for x in rng.sample(attrs, 1) if x not in chosen]
+                STATS['filter-covers-identifier'] = STATS.get('filter-covers-identifier', 0) + 1
             items = []
             for a, ty in chosen:
                 ext = sh.extent[kind.upper()]
@@ -413,3 +429,5 @@ def run(ctx):
             ctx.count('states_reloaded')
         ctx.count('states')
         run_queries(ctx, rng, b, handles, sch, nq, state_key)
+    for k, v in STATS.items():
+        ctx.hit('QueryRef.' + k, v)
